@@ -3,7 +3,7 @@
    field inside bytes 2..63, no two fields sharing a byte) - i.e. over programs - and over all values / all byte strings.
    Theorems only; proofs in Proofs/WireProofs.v, Proofs/CodecProofs.v, Proofs/TagProofs.v. *)
 From UV Require Import Base.Bytes Model.WireTypes Model.Codec Model.Interp Spec.WireSpec Spec.CodecSpec
-  Proofs.WireProofs Proofs.CodecProofs Proofs.TagProofs.
+  Proofs.WireProofs Proofs.CodecProofs Proofs.TagProofs Model.CodecEntry Proofs.EntryProofs.
 Open Scope N_scope.
 
 (* encoding writes exactly each field's protocol bytes at its declared offset, the tag bytes in the header and zero
@@ -79,6 +79,35 @@ Theorem C18_frame : forall L b b',
 Proof. exact unmarshal_frame. Qed.
 Print Assumptions C18_frame.
 
+(* the list entry point (UnmarshalArray) is the single-datagram decoder applied in order: it succeeds exactly when every
+   datagram decodes, with exactly those values in that order (nothing dropped, added or reordered), fails exactly when some
+   datagram fails - whatever follows the first failing one - and never panics, for lists of any length *)
+Theorem C18_array_pointwise : forall L bufs vss,
+  unmarshal_array L bufs = Ok vss <-> Forall2 (fun b vs => unmarshal L b = Ok vs) bufs vss.
+Proof. exact array_pointwise. Qed.
+Print Assumptions C18_array_pointwise.
+
+Theorem C18_array_err : forall L bufs, wf_layout L = true ->
+  (unmarshal_array L bufs = Err <-> exists b, In b bufs /\ unmarshal L b = Err).
+Proof. exact array_err. Qed.
+Print Assumptions C18_array_err.
+
+Theorem C18_array_first_error : forall L pre b post vs,
+  Forall2 (fun b vs => unmarshal L b = Ok vs) pre vs -> unmarshal L b = Err ->
+  unmarshal_array L (pre ++ b :: post) = Err.
+Proof. exact array_prefix_err. Qed.
+Print Assumptions C18_array_first_error.
+
+Theorem C18_array_total : forall L bufs, wf_layout L = true -> unmarshal_array L bufs <> Panic.
+Proof. exact array_total. Qed.
+Print Assumptions C18_array_total.
+
+Theorem C18_array_roundtrip : forall L vss ms, wf_layout L = true ->
+  Forall2 (fun vs m => values_in_domain L vs = true /\ marshal L vs = Ok m /\ som_ok m = true) vss ms ->
+  unmarshal_array L ms = Ok (map (canon_vals L) vss).
+Proof. exact array_roundtrip. Qed.
+Print Assumptions C18_array_roundtrip.
+
 (* non-vacuity: a layout with a 16-bit field ending on the last byte, a pointer date and a fixed byte *)
 Definition ex_layout : layout :=
   [FMsgType (Some (Some 0x20)); FData KSerial 4 None; FData KDateP 8 None; FData KU8 12 (Some (Some 0x55)); FData KU16 62 None].
@@ -88,3 +117,9 @@ Example C18_ex : wf_layout ex_layout = true /\ values_in_domain ex_layout ex_val
     Ok ([0x17; 0x20; 0; 0; 0x78; 0x37; 0x2a; 0x18; 0x20; 0x24; 0x02; 0x29; 0x55] ++ repeat 0 49 ++ [0xEF; 0xBE]) /\
   som_ok (spec_image ex_layout ex_values) = true.
 Proof. vm_compute. repeat split. Qed.
+
+Example C18_array_ex :
+  unmarshal_array ex_layout [spec_image ex_layout ex_values; spec_image ex_layout ex_values] =
+    Ok [canon_vals ex_layout ex_values; canon_vals ex_layout ex_values] /\
+  unmarshal_array ex_layout [spec_image ex_layout ex_values; [0x17]; spec_image ex_layout ex_values] = Err.
+Proof. vm_compute. split; reflexivity. Qed.
